@@ -63,7 +63,7 @@ def state_of(solver):
     if hasattr(info, "gain"):
         out["gain"] = float(info.gain)
     if hasattr(info, "value_history"):
-        out["value_history"] = None if info.value_history is None else np.asarray(info.value_history)
+        out["value_history"] = None if info.value_history is None else np.array(info.value_history, copy=True)
         out["history_index"] = int(info.history_index)
         out["period"] = int(info.period)
     return out
